@@ -27,7 +27,7 @@ def opts(fb=(), runOrig=False, subst='none', failMissing=True):
 
 DEFAULT_WORLD = {('ia1', 1): ('val', 'v1'), ('ia1', 2): ('val', 'v2'), ('ia2', 1): ('exc', 'E1'),
                  ('ia2', 2): ('val', 'v1'), ('ia3', 0): ('val', 'v2'), ('ia4', 1): ('val', 'v3'),
-                 ('ia4', 2): ('exc', 'E2')}
+                 ('ia4', 2): ('exc', 'E2'), ('ia5', 1): ('val', 'v3'), ('ia5', 2): ('val', 'v1')}
 
 
 def consts(**over):
@@ -42,7 +42,7 @@ def consts(**over):
         Ctl=[], Ends=['ret', 'raise'],
         Classes=[K('K1')], Draws=['low'], Extractors=['none'], SaveFails=[False],
         Toggles=0, StartEnabled=[True], MaxSteps=2, MaxRuns=1, MaxRecs=1, Modes=[], EditKinds=[],
-        FreeOpts=[], FreeOutOpts=[], UnknownIds=[False], Threads=[0],
+        InOpts=[], OutOpts=[], PlayFaults=[],
         FixF1=True, FixF2=True, FixF3=True, FixF10=True)
     c.update(over)
     if c['World'] is None:
@@ -53,11 +53,14 @@ def consts(**over):
 
 
 def to_tla_consts(c):
-    world = '(' + ' @@ '.join('%s :> %s' % (mc.tla(tuple(k)), mc.tla(tuple(v))) for k, v in sorted(c['World'].items())) + ')'
+    world = ('(' + ' @@ '.join('%s :> %s' % (mc.tla(tuple(k)), mc.tla(tuple(v))) for k, v in sorted(c['World'].items())) + ')') if c['World'] else '<<>>'
     incalls = set(tuple(x) for x in c['InCalls']) | ({tuple(c['InnerCall'])} if set(c['Bodies']) & {'nestSame', 'nestOther'} else set())
 
     def recset(lst):
         return Raw('{' + ', '.join(mc.tla(x) for x in lst) + '}')
+
+    def recseq(lst):
+        return Raw('<<' + ', '.join(mc.tla(x) for x in lst) + '>>')
     return dict(
         InCalls=incalls, World=Raw(world), InnerCall=tuple(c['InnerCall']),
         OutAliases=set(c['OutAliases']), Vals=set(c['Vals']), Excs=set(c['Excs']), Handlers=set(c['Handlers']),
@@ -66,14 +69,14 @@ def to_tla_consts(c):
         Classes=recset(c['Classes']), Draws=set(c['Draws']), Extractors=set(c['Extractors']),
         SaveFails=set(c['SaveFails']), Toggles=c['Toggles'], StartEnabled=set(c['StartEnabled']),
         MaxSteps=c['MaxSteps'], MaxRuns=c['MaxRuns'], MaxRecs=c['MaxRecs'], Modes=set(c['Modes']),
-        EditKinds=set(c['EditKinds']), FreeOpts=recset(c['FreeOpts']), FreeOutOpts=recset(c['FreeOutOpts']),
-        UnknownIds=set(c['UnknownIds']), Threads=set(c['Threads']),
+        EditKinds=set(c['EditKinds']), InOpts=recseq(c['InOpts']), OutOpts=recseq(c['OutOpts']),
+        PlayFaults=set(c['PlayFaults']),
         FixF1=c['FixF1'], FixF2=c['FixF2'], FixF3=c['FixF3'], FixF10=c['FixF10'])
 
 
 def driver_consts(c):
     return {'WorldMap': dict(c['World']), 'InnerCall': tuple(c['InnerCall']), 'ClassList': list(c['Classes']),
-            'FreeOptsList': list(c['FreeOpts']), 'FreeOutOptsList': list(c['FreeOutOpts'])}
+            'FreeOptsList': list(c['InOpts']), 'FreeOutOptsList': list(c['OutOpts'])}
 
 
 # ------------------------------------------------------------------------------------------------------------------
@@ -174,11 +177,9 @@ def ev_summary(beh):
         st = e['step']
         d = {'a': e['kind']}
         if st['kind']:
-            d.update({k: st[k] for k in ('alias', 'arg', 'sent', 'body', 'fault', 'th') if st[k] not in ('', 0, 'none')})
+            d.update({k: st[k] for k in ('alias', 'arg', 'sent', 'body', 'fault', 'opt') if st[k] not in ('', 0, 'none')})
             if st['kind'] == 'out':
                 d['res'] = list(st['res'])
-            if e['kind'] in ('pin', 'pout') and e['mode'] == 'free':
-                d['opts'] = {k: (list(v) if isinstance(v, tuple) else v) for k, v in st['opts'].items()}
         if tuple(e['seen']) != ('none', ''):
             d['seen'] = list(e['seen'])
         for k in ('cls', 'decision', 'draw', 'extractor', 'mode'):
